@@ -6,10 +6,20 @@
    find_valid_neighbors, the final mask_border of mc-cnn); [interp_before] is the model of the
    code as found.  Rows/columns: disp r c, mask r c, 0 <= r < nr, 0 <= c < nc; None = NaN.
    The Spec (Spec/Interp.v) is relational and pixel-wise; all theorems hold for every size,
-   every map, every mask. *)
+   every map, every mask.
+
+   Tie to the source (T-gen, second half of this file): Gen/InterpKernels.v is regenerated on every run
+   from the Python source of the four kernels, of find_valid_neighbors and of the two
+   interpolated_disparity methods (translator/gen_interp_kernels.py, Python ast, fail closed; constructs
+   interpreted by Model/InterpPrims.v).  C14_gen_occ_mc_eq, C14_gen_mis_mc_eq, C14_gen_fvn_eq,
+   C14_gen_occ_sgm_eq, C14_gen_mis_sgm_eq, C14_gen_plans are the per-run obligations "what the code says
+   now computes, on every pixel of every map, what the model computes"; the C14_gen_* theorems after them
+   restate the headline theorems on [ginterp] = the generated pixel bodies run by the generated call
+   plans (Model/InterpGen.v). *)
 From Coq Require Import List Bool ZArith QArith Qabs Lia.
 From Pandora Require Import Model.CrossCheck Spec.CrossCheck Proofs.CrossCheckP
-     Model.Interp Spec.Interp Proofs.InterpP Gen.ValConst Model.Mirror Gen.Callbacks.
+     Model.Interp Spec.Interp Proofs.InterpP Gen.ValConst Model.Mirror Gen.Callbacks
+     Lib.FloatQ Model.InterpPrims Model.InterpGen Proofs.InterpGenP.
 Import ListNotations.
 Open Scope Z_scope.
 
@@ -217,6 +227,139 @@ Theorem C14_after_cross_check : forall thr m me other, ds_nc me <= 2 ^ 63 ->
     (0 <= ds_mask me r c < 65536 -> 0 <= ds_mask (interp_ds m (xcheck thr me other)) r c < 65536).
 Proof. exact interp_after_xcheck. Qed.
 
+(* ================================================================== the kernels regenerated from the source
+   G.occ_mc_pixel, G.mis_mc_pixel, G.occ_sgm_pixel, G.mis_sgm_pixel: the body of the (col, row) loop nest of each
+   kernel on one pixel; G.find_valid_neighbors; G.mc_cnn_plan, G.sgm_plan: the kernel calls of the two
+   interpolated_disparity methods, in order, and whether mask_border follows (Gen/InterpKernels.v).
+   Array indexing follows Python (negative scalar indices wrap, slice bounds are clipped: Model/InterpPrims.v). *)
+
+(* Per-run obligations: on every pixel of the map the generated pixel body computes what the model's pixel
+   function computes -- every shape, every map (NaN included), every mask. *)
+Theorem C14_gen_occ_mc_eq : forall ncol nrow disp valid col row, 0 <= col < ncol -> 0 <= row < nrow ->
+  G.occ_mc_pixel ncol nrow disp valid col row = occ_mc_pixel true nrow disp valid col row.
+Proof. exact gen_occ_mc_eq. Qed.
+
+Theorem C14_gen_mis_mc_eq : forall ncol nrow disp valid col row, 0 <= col < ncol -> 0 <= row < nrow ->
+  G.mis_mc_pixel ncol nrow disp valid col row = mis_mc_pixel true ncol nrow disp valid col row.
+Proof. exact gen_mis_mc_eq. Qed.
+
+(* find_valid_neighbors, called with the direction table either sgm kernel defines *)
+Theorem C14_gen_fvn_eq : forall ncol nrow disp valid col row, 0 <= col < ncol -> 0 <= row < nrow ->
+  G.occ_sgm_pixel_dirs = dirs8 /\ G.mis_sgm_pixel_dirs = dirs8 /\
+  G.find_valid_neighbors dirs8 ncol nrow disp valid row col = find_valid_neighbors ncol nrow disp valid row col.
+Proof. exact gen_fvn_eq'. Qed.
+
+Theorem C14_gen_occ_sgm_eq : forall ncol nrow disp valid col row, 0 <= col < ncol -> 0 <= row < nrow ->
+  G.occ_sgm_pixel ncol nrow disp valid col row = occ_sgm_pixel true ncol nrow disp valid col row.
+Proof. exact gen_occ_sgm_eq. Qed.
+
+Theorem C14_gen_mis_sgm_eq : forall ncol nrow disp valid col row, 0 <= col < ncol -> 0 <= row < nrow ->
+  G.mis_sgm_pixel ncol nrow disp valid col row = mis_sgm_pixel true ncol nrow disp valid col row.
+Proof. exact gen_mis_sgm_eq. Qed.
+
+(* mc-cnn: occlusions then mismatches then mask_border; sgm: mismatches then occlusions, no mask_border *)
+Theorem C14_gen_plans : G.mc_cnn_plan = ([KOccMc; KMisMc], true) /\ G.sgm_plan = ([KMisSgm; KOccSgm], false).
+Proof. exact gen_plans. Qed.
+
+(* np.argsort(np.abs(v)) then v[...[1]], as the source of interpolate_occlusion_sgm writes it, is the model's
+   second lowest |d| (on the 8 values find_valid_neighbors returns; any list of at least two values) *)
+Theorem C14_gen_argsort_second : forall l : list (option Q), (2 <= length l)%nat ->
+  py_nth None l (py_nth 0 (argsort (map fabs l)) 1) = second_lowest_abs l.
+Proof. exact second_of_argsort. Qed.
+
+(* hence the method assembled from the generated plan and the generated pixel bodies is the model *)
+Theorem C14_gen_interp_eq : forall m nr nc off disp mask, ginterp m nr nc off disp mask = interp m nr nc off disp mask.
+Proof. exact ginterp_eq. Qed.
+
+(* a generated pixel body leaves a pixel carrying neither bit 8 nor bit 9 exactly as it is *)
+Theorem C14_gen_pixel_unflagged : forall k ncol nrow disp valid col row, 0 <= col < ncol -> 0 <= row < nrow ->
+  flagged (valid col row) = false ->
+  gpixel k ncol nrow disp valid col row = (disp col row, valid col row).
+Proof. exact gen_pixel_unflagged. Qed.
+
+Theorem C14_gen_mc_cnn_meets_spec : forall nr nc off disp mask,
+  mc_cnn_spec nr nc off disp mask (fst (ginterp McCnn nr nc off disp mask)) (snd (ginterp McCnn nr nc off disp mask)).
+Proof. exact gen_mc_meets_spec. Qed.
+
+Theorem C14_gen_sgm_meets_spec : forall nr nc off disp mask, never_both nr nc mask ->
+  sgm_spec nr nc disp mask (fst (ginterp Sgm nr nc off disp mask)) (snd (ginterp Sgm nr nc off disp mask)).
+Proof. exact gen_sgm_meets_spec. Qed.
+
+(* the clauses of the property, on the generated definitions (same statements as in Section C14) *)
+Section C14_gen.
+  Variable m : method.
+  Variables nr nc off : Z.
+  Variable disp : Z -> Z -> option Q.
+  Variable mask : Z -> Z -> Z.
+  Hypothesis NB : never_both nr nc mask.
+
+  Local Notation disp' := (fst (ginterp m nr nc off disp mask)).
+  Local Notation mask' := (snd (ginterp m nr nc off disp mask)).
+
+  Theorem C14_gen_only_flagged_change : forall r c, 0 <= r < nr -> 0 <= c < nc ->
+    flagged (mask r c) = false ->
+    disp' r c = disp r c /\ mask' r c = if remarked_by m nr nc off r c then 1 else mask r c.
+  Proof. exact (gen_only_flagged_change m nr nc off disp mask NB). Qed.
+
+  Theorem C14_gen_flag_swap : forall r c, 0 <= r < nr -> 0 <= c < nc -> remarked_by m nr nc off r c = false ->
+    (Z.testbit (mask r c) 8 = true ->
+       (mask' r c = mask r c /\ disp' r c = disp r c) \/ swapped 8 4 (mask r c) (mask' r c)) /\
+    (Z.testbit (mask r c) 9 = true ->
+       (mask' r c = mask r c /\ disp' r c = disp r c) \/ swapped 9 5 (mask r c) (mask' r c) \/
+       (m = Sgm /\ swapped 9 8 (mask r c) (mask' r c) /\ disp' r c = disp r c) \/
+       (m = Sgm /\ swapped 9 4 (mask r c) (mask' r c))).
+  Proof. exact (gen_flag_swap m nr nc off disp mask NB). Qed.
+
+  Theorem C14_gen_other_bits_untouched : forall r c, 0 <= r < nr -> 0 <= c < nc ->
+    remarked_by m nr nc off r c = false ->
+    forall n, 0 <= n -> n <> 4 -> n <> 5 -> n <> 8 -> n <> 9 ->
+      Z.testbit (mask' r c) n = Z.testbit (mask r c) n.
+  Proof. exact (gen_other_bits m nr nc off disp mask NB). Qed.
+
+  Theorem C14_gen_filled_or_stays_flagged : forall r c, 0 <= r < nr -> 0 <= c < nc ->
+    remarked_by m nr nc off r c = false -> flagged (mask r c) = true ->
+    filled (mask r c) (mask' r c) \/ (flagged (mask' r c) = true /\ disp' r c = disp r c).
+  Proof. exact (gen_filled_or_stays m nr nc off disp mask NB). Qed.
+
+  Theorem C14_gen_filled_between_min_max_valid : forall lo hi, valid_range nr nc disp mask lo hi ->
+    forall r c, 0 <= r < nr -> 0 <= c < nc -> remarked_by m nr nc off r c = false ->
+    filled (mask r c) (mask' r c) -> exists q, disp' r c = Some q /\ (lo <= q <= hi)%Q.
+  Proof. exact (gen_filled_range m nr nc off disp mask NB). Qed.
+
+  Theorem C14_gen_filled_is_from_valid : forall r c, 0 <= r < nr -> 0 <= c < nc ->
+    remarked_by m nr nc off r c = false -> filled (mask r c) (mask' r c) ->
+    exists r' c', 0 <= r' < nr /\ 0 <= c' < nc /\ spec_valid (mask r' c') = true.
+  Proof. exact (gen_filled_needs_valid m nr nc off disp mask NB). Qed.
+
+  Theorem C14_gen_nothing_in_sight_stays_flagged : forall r c, 0 <= r < nr -> 0 <= c < nc ->
+    remarked_by m nr nc off r c = false ->
+    match m with
+    | McCnn => nothing_in_sight halfstep dirs16_rc nr nc mask r c
+    | Sgm => nothing_in_sight straight dirs8_rc nr nc mask r c
+    end ->
+    disp' r c = disp r c /\ mask' r c = mask r c.
+  Proof. exact (gen_nothing_in_sight m nr nc off disp mask NB). Qed.
+
+  Theorem C14_gen_unfillable_stays_invalid :
+    (forall r c, 0 <= r < nr -> 0 <= c < nc -> spec_valid (mask r c) = false) ->
+    forall r c, 0 <= r < nr -> 0 <= c < nc ->
+      disp' r c = disp r c /\
+      (remarked_by m nr nc off r c = false -> flagged (mask r c) = true -> flagged (mask' r c) = true).
+  Proof. exact (gen_no_valid_pixel m nr nc off disp mask NB). Qed.
+
+  Theorem C14_gen_border_bit0 : forall r c, 0 <= r < nr -> 0 <= c < nc ->
+    (m = McCnn -> 0 < off -> is_border nr nc off r c = true -> mask' r c = 1) /\
+    (mask r c = 1 -> mask' r c = 1).
+  Proof. exact (gen_border_bit0 m nr nc off disp mask NB). Qed.
+
+  Theorem C14_gen_no_wrap : forall r c, 0 <= r < nr -> 0 <= c < nc ->
+    0 <= mask r c < 65536 -> 0 <= mask' r c < 65536.
+  Proof. exact (gen_no_wrap m nr nc off disp mask NB). Qed.
+
+  Theorem C14_gen_never_both_preserved : never_both nr nc mask'.
+  Proof. exact (gen_never_both m nr nc off disp mask NB). Qed.
+End C14_gen.
+
 (* ---------------------------------------------------------------- witnesses *)
 
 Definition grid {A} (d : A) (rows : list (list A)) : Z -> Z -> A :=
@@ -252,6 +395,17 @@ Example C14_example_outputs :
     = [[q 1; q 2; q 3; q 4; q 5]; [q 1; q 1; q 2; q 4; q 2]; [q 3; q 3; q 3; q 3; q 3]] /\
   show 3 5 (snd (interp Sgm 3 5 0 ex_disp ex_mask)) = [[0; 0; 0; 0; 0]; [0; 16; 16; 0; 0]; [0; 2; 0; 0; 4]] /\
   show 3 5 (snd (interp McCnn 3 5 1 ex_disp ex_mask)) = [[1; 1; 1; 1; 1]; [1; 16; 32; 0; 1]; [1; 1; 1; 1; 1]].
+Proof. vm_compute. repeat split. Qed.
+
+(* the generated pixel bodies, run by the generated plans, on the same map *)
+Example C14_gen_example_outputs :
+  show 3 5 (fst (ginterp McCnn 3 5 0 ex_disp ex_mask))
+    = [[q 1; q 2; q 3; q 4; q 5]; [q 1; q 1; q 3; q 4; q 2]; [q 3; q 3; q 3; q 3; q 3]] /\
+  show 3 5 (snd (ginterp McCnn 3 5 0 ex_disp ex_mask)) = [[0; 0; 0; 0; 0]; [0; 16; 32; 0; 0]; [0; 2; 0; 0; 4]] /\
+  show 3 5 (fst (ginterp Sgm 3 5 0 ex_disp ex_mask))
+    = [[q 1; q 2; q 3; q 4; q 5]; [q 1; q 1; q 2; q 4; q 2]; [q 3; q 3; q 3; q 3; q 3]] /\
+  show 3 5 (snd (ginterp Sgm 3 5 0 ex_disp ex_mask)) = [[0; 0; 0; 0; 0]; [0; 16; 16; 0; 0]; [0; 2; 0; 0; 4]] /\
+  show 3 5 (snd (ginterp McCnn 3 5 1 ex_disp ex_mask)) = [[1; 1; 1; 1; 1]; [1; 16; 32; 0; 1]; [1; 1; 1; 1; 1]].
 Proof. vm_compute. repeat split. Qed.
 
 (* D5 (DESIGN.md section 4), corpus cases of the check: 3x3, centre flagged, every other pixel
@@ -337,3 +491,25 @@ Print Assumptions C14_reads_only_the_map.
 Print Assumptions C14_cross_check_never_both.
 Print Assumptions C14_validation_run.
 Print Assumptions C14_after_cross_check.
+Print Assumptions C14_gen_occ_mc_eq.
+Print Assumptions C14_gen_mis_mc_eq.
+Print Assumptions C14_gen_fvn_eq.
+Print Assumptions C14_gen_occ_sgm_eq.
+Print Assumptions C14_gen_mis_sgm_eq.
+Print Assumptions C14_gen_plans.
+Print Assumptions C14_gen_argsort_second.
+Print Assumptions C14_gen_interp_eq.
+Print Assumptions C14_gen_pixel_unflagged.
+Print Assumptions C14_gen_mc_cnn_meets_spec.
+Print Assumptions C14_gen_sgm_meets_spec.
+Print Assumptions C14_gen_only_flagged_change.
+Print Assumptions C14_gen_flag_swap.
+Print Assumptions C14_gen_other_bits_untouched.
+Print Assumptions C14_gen_filled_or_stays_flagged.
+Print Assumptions C14_gen_filled_between_min_max_valid.
+Print Assumptions C14_gen_filled_is_from_valid.
+Print Assumptions C14_gen_nothing_in_sight_stays_flagged.
+Print Assumptions C14_gen_unfillable_stays_invalid.
+Print Assumptions C14_gen_border_bit0.
+Print Assumptions C14_gen_no_wrap.
+Print Assumptions C14_gen_never_both_preserved.
